@@ -11,6 +11,7 @@ import (
 	"encoding/json"
 	"fmt"
 	"os"
+	"os/exec"
 	"path/filepath"
 	"sort"
 	"strings"
@@ -62,6 +63,28 @@ type params struct {
 	// Gowork puts a go.work file using the module above it (never together
 	// with -mod=mod, which the go command refuses in workspace mode)
 	Gowork bool `json:"gowork,omitempty"`
+	// Symlink: "outer" = the whole tree is reached through a symbolic link to
+	// its real location and every path is spelled through the link; "file" = one
+	// requested file is a symbolic link to a file kept in <module>/_shared
+	Symlink string `json:"symlink,omitempty"`
+	// Cgo: package 0 has one more file that imports "C" (file index -2 in the
+	// arguments); skipped when cgo is not usable on the machine
+	Cgo bool `json:"cgo,omitempty"`
+}
+
+var cgoState int // 0 unknown, 1 usable, 2 not
+
+func cgoUsable() bool {
+	if cgoState == 0 {
+		cgoState = 2
+		out, err := exec.Command("go", "env", "CC").Output()
+		if f := strings.Fields(string(out)); err == nil && len(f) >= 1 {
+			if _, lerr := exec.LookPath(f[0]); lerr == nil {
+				cgoState = 1
+			}
+		}
+	}
+	return cgoState == 1
 }
 
 var noiseKinds = []string{"broken_sibling_package", "ext_test", "in_test", "ignore_main", "os_variant", "underscore_garbage", "dot_garbage", "testdata_garbage", "nested_module", "hidden_dir"}
@@ -213,6 +236,15 @@ func (c17) Generate(env *kernel.Env, r *kernel.Rand, index int) any {
 		p.Second = kernel.Pick(r, []string{"type_error_root", "syntax_error_root", "missing", "type_error_import"})
 		p.FaultA = r.Intn(64)
 	}
+	if r.Chance(1, 6) {
+		p.Symlink = kernel.Pick(r, []string{"outer", "file"})
+	}
+	if r.Chance(1, 16) {
+		p.Cgo = true
+		if r.Chance(2, 3) {
+			p.Args = append(p.Args, fileArg{Pkg: 0, File: -2, Spelling: kernel.Pick(r, []string{"abs", "rel"})})
+		}
+	}
 	switch r.Intn(6) {
 	case 0:
 		p.Goflags = "unset"
@@ -263,6 +295,26 @@ func (c17) Execute(env *kernel.Env, raw json.RawMessage, ch *kernel.Choices) *ke
 			p.Pkgs[0].Files = append(append([]string(nil), p.Pkgs[0].Files...), "zt_tagged.go")
 			tagged = len(p.Pkgs[0].Files) - 1
 		}
+		cgo := -1
+		if p.Cgo && len(p.Pkgs) > 0 {
+			if cgoUsable() {
+				p.Pkgs[0].Files = append(append([]string(nil), p.Pkgs[0].Files...), "zc_cgo.go")
+				cgo = len(p.Pkgs[0].Files) - 1
+				out.Fault("env_cgo_file_in_package")
+				// (the harness itself is built with CGO_ENABLED=0)
+				oldCgo, hadCgo := os.LookupEnv("CGO_ENABLED")
+				os.Setenv("CGO_ENABLED", "1")
+				defer func() {
+					if hadCgo {
+						os.Setenv("CGO_ENABLED", oldCgo)
+					} else {
+						os.Unsetenv("CGO_ENABLED")
+					}
+				}()
+			} else {
+				out.Probe("cgo_unusable:skipped")
+			}
+		}
 		var args []fileArg
 		for _, a := range p.Args {
 			if a.File == -1 {
@@ -271,6 +323,12 @@ func (c17) Execute(env *kernel.Env, raw json.RawMessage, ch *kernel.Choices) *ke
 				}
 				a.File = tagged
 			}
+			if a.File == -2 {
+				if cgo < 0 || a.Pkg != 0 {
+					continue
+				}
+				a.File = cgo
+			}
 			args = append(args, a)
 		}
 		p.Args = args
@@ -278,7 +336,19 @@ func (c17) Execute(env *kernel.Env, raw json.RawMessage, ch *kernel.Choices) *ke
 	runCounter++
 	base := filepath.Join(env.Scratch, fmt.Sprintf("c17-%d-%d", os.Getpid(), runCounter))
 	defer os.RemoveAll(base)
-	modRoot := filepath.Join(base, filepath.FromSlash(p.Outer), "mod")
+	treeBase := base
+	if p.Symlink == "outer" {
+		// the real tree lives in <base>/real, everything is spelled through <base>/via
+		if err := os.MkdirAll(filepath.Join(base, "real"), 0o755); err != nil {
+			kernel.Harnessf("environment setup: %v", err)
+		}
+		if err := os.Symlink(filepath.Join(base, "real"), filepath.Join(base, "via")); err != nil {
+			kernel.Harnessf("environment setup: %v", err)
+		}
+		treeBase = filepath.Join(base, "via")
+		out.Fault("env_tree_behind_symlink")
+	}
+	modRoot := filepath.Join(treeBase, filepath.FromSlash(p.Outer), "mod")
 	must := func(err error) {
 		if err != nil {
 			kernel.Harnessf("environment setup: %v", err)
@@ -306,6 +376,9 @@ func (c17) Execute(env *kernel.Env, raw json.RawMessage, ch *kernel.Choices) *ke
 				b.WriteString("//go:build verifx\n\n")
 			}
 			fmt.Fprintf(&b, "package %s\n\n", ps.Name)
+			if f == "zc_cgo.go" {
+				b.WriteString("// #include <stdlib.h>\nimport \"C\"\n\nfunc cSize() int { return int(C.sizeof_int) }\n\n")
+			}
 			if j == 0 && len(ps.Imports) > 0 {
 				b.WriteString("import (\n")
 				for k, imp := range ps.Imports {
@@ -360,6 +433,12 @@ func (c17) Execute(env *kernel.Env, raw json.RawMessage, ch *kernel.Choices) *ke
 	}
 	// working directory
 	cwd := modRoot
+	if p.Symlink == "outer" && p.Cwd != "fsroot" {
+		// inside a tree reached through a link the kernel reports the physical
+		// working directory, so relative arguments would name the real location
+		// and absolute ones the link: the run stays outside the linked tree
+		p.Cwd = "other"
+	}
 	switch {
 	case p.Cwd == "other":
 		cwd = filepath.Join(base, "elsewhere")
@@ -418,6 +497,19 @@ func (c17) Execute(env *kernel.Env, raw json.RawMessage, ch *kernel.Choices) *ke
 	emptySet := len(p.Args) == 0
 	if len(args) == 0 && !emptySet {
 		return out // shrunk away
+	}
+	if p.Symlink == "file" && len(absFiles) > 0 {
+		// one requested file becomes a symbolic link to a file kept elsewhere in
+		// the module: for the go command it is a file of the package all the same
+		target := absFiles[p.FaultA%len(absFiles)]
+		if st, err := os.Lstat(target); err == nil && st.Mode().IsRegular() {
+			shared := filepath.Join(modRoot, "_shared")
+			must(os.MkdirAll(shared, 0o755))
+			kept := filepath.Join(shared, fmt.Sprintf("k%d_%s", p.FaultA%len(absFiles), filepath.Base(target)))
+			must(os.Rename(target, kept))
+			must(os.Symlink(kept, target))
+			out.Fault("env_requested_file_is_a_symlink")
+		}
 	}
 	pkgOfArg := func(k int) int {
 		n := -1
@@ -842,6 +934,16 @@ func (c17) Shrink(raw json.RawMessage) []json.RawMessage {
 	if p.Gowork {
 		q := p
 		q.Gowork = false
+		out = append(out, kernel.MustJSON(q))
+	}
+	if p.Symlink != "" {
+		q := p
+		q.Symlink = ""
+		out = append(out, kernel.MustJSON(q))
+	}
+	if p.Cgo {
+		q := p
+		q.Cgo = false
 		out = append(out, kernel.MustJSON(q))
 	}
 	if p.Outer != "" {
